@@ -49,6 +49,11 @@ def keyNames : List String :=
    "movieFileSize", "movieFileFreeSize", "pauseState", "result", "selection", "stageBottom", "stageLeft", "stageRight",
    "stageTop", "ticks", "maxinteger", "multiSound"]
 
+/-- `the` properties of the movie compiled `5f n` / `60 n` (never followed by `of <object>`) -/
+def movieNames : List String :=
+  ["actorList", "itemDelimiter", "frameLabel", "updateMovieEnabled", "cpuHogTicks", "romanLingo", "traceLoad", "traceLogFile",
+   "movieName", "moviePath"]
+
 def tblLookupName (t : List (Nat × String)) (n : Name) : Option Nat :=
   (t.find? fun x => lowerName x.2.toList == lowerName n).map (·.1)
 
@@ -56,6 +61,13 @@ def tblLookupIdx (t : List (Nat × String)) (k : Nat) : Option Name :=
   (t.find? fun x => x.1 == k).map (·.2.toList)
 
 def isKeyName (n : Name) : Bool := keyNames.any fun k => lowerName k.toList == lowerName n
+
+def isMovieName (n : Name) : Bool := movieNames.any fun k => lowerName k.toList == lowerName n
+
+/-- properties that never take an `of <object>` part: an `of` after them belongs to an enclosing construct -/
+def isObjectless (n : Name) : Bool :=
+  (tblLookupName tblSpecial n).isSome || (tblLookupName tblSys n).isSome || isKeyName n || isMovieName n
+    || lowerName n == "perframehook".toList
 
 def chunkOfPlural (n : Name) : Option ChunkKind :=
   let l := lowerName n
